@@ -244,7 +244,7 @@ class VttContext:
     # paragraphs shorter than the millisecond resolution of the time codes cannot be represented
     self._paragraphs = [
       p for p in self._paragraphs
-      if p.get_end() is None or p.get_end().to_seconds() > p.get_begin().to_seconds()
+      if p.get_end() is None or p.get_end().to_milliseconds() > p.get_begin().to_milliseconds()
     ]
 
     # the last ISD can yield several unbounded paragraphs, e.g. one per region
@@ -258,7 +258,7 @@ class VttContext:
       else:
         # set default end time code
         LOGGER.warning("Set a default end value to paragraph (begin + 10s).")
-        paragraph.set_end(paragraph.get_begin().to_seconds() + 10.0)
+        paragraph.set_end(Fraction(paragraph.get_begin().to_milliseconds(), 1000) + 10)
 
   def style_block(self):
     """Generated CSS INLINE STYLE Block"""
